@@ -593,7 +593,7 @@ def main(tier):
     rt, drv = load_progs()
     rep = common.Reporter(PID)
     tmo = 900 if tier == "quick" else 2400
-    deadline = t0 + (2400 if tier == "quick" else 5400)
+    deadline = time.time() + (2400 if tier == "quick" else 5400)      # after the MIR dumps
     results = []
     cfgs = CONFIGS[tier]
     for r in common.fork_map(_cfg_worker, [(rt, drv, c, tmo, deadline) for c in cfgs], min(len(cfgs), 4)):
